@@ -27,6 +27,8 @@ GEOS = [
     {"so": "sketchy", "shapes": [[6, 3]], "block": 1024, "merge": 3, "rank": 2},
     {"so": "sketchy", "shapes": [[4, 5]], "block": 1024, "merge": 4, "rank": 2, "sk_rel": False, "sk_eps": 1e-6},
     {"so": "sketchy", "shapes": [[4, 3]], "block": 1024, "merge": 3, "rank": 2, "tie_first": True},   # exact ties at the cut
+    # add_ggt only STORES the moving Gram matrices next to the sketch: the update must stay the documented one
+    {"so": "sketchy", "shapes": [[5, 4]], "block": 1024, "merge": 4, "rank": 2, "add_ggt": True},
 ]
 TOL = {"update": None, "lr_linearity_ulps": 2.0}
 
